@@ -212,6 +212,13 @@ func TestC02(t *testing.T) {
 		st.Eval()
 		f, rendered, hostile := checkC02(c)
 		if f != nil {
+			if c.Tree != nil && len(c.Opts.Juxta) == 0 {
+				c.Tree = gen.Minimize(c.Tree, func(n *gen.Node) bool {
+					ff, _, _ := checkC02(SQLCase{Tree: n, Opts: c.Opts, DF: c.DF})
+					return ff != nil && ff.Sub == f.Sub
+				})
+				f, _, _ = checkC02(c)
+			}
 			c.Text = c.text()
 			st.Violate(stream, c, f)
 			return false
